@@ -12,6 +12,8 @@ import (
 	"io"
 	"net"
 	"os"
+	"os/exec"
+	"sync"
 	"runtime"
 	"strings"
 	"testing"
@@ -210,6 +212,114 @@ func TestVerifMquic(t *testing.T) {
 			out.Fail("C14:quic:undecided-on-datagram", "a non-empty datagram that cannot be a QUIC Initial was answered 'need more'", inp)
 		}
 	}
+	if prop == "" || prop == "C04" {
+		vQOverlap(out)
+	}
 	out.Stat("quic_cases", len(cases))
 	out.Stat("quic_max_alloc_bytes", maxAlloc)
+}
+
+// ---------------------------------------------------------------- overlapping Match calls on ONE matcher instance
+//
+// UDP associations are matched concurrently by the server, all through the same provisioned matcher. A panic in a
+// goroutine quic-go starts cannot be recovered by the caller and kills the process, so the scenario runs in a child
+// process (this test binary re-executed) and the parent reports a crash as C04:quic:panic.
+
+const vQChildEnv = "VERIF_MQUIC_CHILD"
+
+func TestVerifMquicChild(t *testing.T) {
+	if os.Getenv(vQChildEnv) == "" {
+		return
+	}
+	ctx, cancel := caddy.NewContext(caddy.Context{Context: context.Background()})
+	defer cancel()
+	m := &MatchQUIC{}
+	if err := m.Provision(ctx); err != nil {
+		fmt.Printf("VQ provision-error %v\n", err)
+		return
+	}
+	caps := [][]byte{packet1, packet2, packet3}
+	// (number of goroutines, start offset between consecutive goroutines in ms); 0 = released together by a barrier
+	rounds := [][2]int{{2, 0}, {2, 10}, {2, 30}, {2, 50}, {3, 0}, {4, 10}, {3, 30}, {4, 0}}
+	for ri, rd := range rounds {
+		n, off := rd[0], rd[1]
+		res := make([]int, n)
+		start := make(chan struct{})
+		var wg sync.WaitGroup
+		for k := 0; k < n; k++ {
+			wg.Add(1)
+			go func(k int) {
+				defer wg.Done()
+				<-start
+				time.Sleep(time.Duration(k*off) * time.Millisecond)
+				// no recover here on purpose: a panic must take the child down like it would take the server down
+				res[k] = vQEvalNoRecover(m, caps[(ri+k)%len(caps)])
+			}(k)
+		}
+		fmt.Printf("VQ round-start %d n=%d off=%dms\n", ri, n, off)
+		close(start)
+		wg.Wait()
+		for k := 0; k < n; k++ {
+			// a loaded machine may miss the 100 ms accept window: retry alone before reporting
+			for a := 0; a < 3 && res[k] != 0; a++ {
+				res[k] = vQEvalNoRecover(m, caps[(ri+k)%len(caps)])
+			}
+			fmt.Printf("VQ verdict %d %d %d\n", ri, k, res[k])
+		}
+	}
+	fmt.Println("VQ done")
+}
+
+func vQEvalNoRecover(m *MatchQUIC, in []byte) int {
+	cx := layer4.WrapConnection(&vQConn{udp: true}, append(make([]byte, 0, len(in)+8), in...), zap.NewNop())
+	ok, err := layer4.MatcherSet{m}.Match(cx)
+	switch {
+	case err == nil && ok:
+		return 0
+	case err == nil:
+		return 1
+	case errors.Is(err, layer4.ErrConsumedAllPrefetchedBytes):
+		return 2
+	default:
+		return 3
+	}
+}
+
+func vQOverlap(out *vOut) {
+	cmd := exec.Command(os.Args[0], "-test.run=^TestVerifMquicChild$", "-test.count=1", "-test.timeout=60s")
+	cmd.Env = append(os.Environ(), vQChildEnv+"=1", "VERIF_OUT=")
+	t0 := time.Now()
+	b, err := cmd.CombinedOutput()
+	text := string(b)
+	lastRound, verdicts, bad := "", 0, 0
+	for _, line := range strings.Split(text, "\n") {
+		var ri, k, v, n, off int
+		if c, _ := fmt.Sscanf(line, "VQ round-start %d n=%d off=%dms", &ri, &n, &off); c == 3 {
+			lastRound = fmt.Sprintf("round %d: %d goroutines, %d ms apart", ri, n, off)
+		}
+		if c, _ := fmt.Sscanf(line, "VQ verdict %d %d %d", &ri, &k, &v); c == 3 {
+			verdicts++
+			if v != 0 {
+				bad++
+				out.Fail("C14:quic:rejects-valid", "a captured QUIC v1 Initial was not matched while other associations were inside Match of the same matcher (and not on three retries alone)",
+					map[string]any{"round": ri, "goroutine": k, "verdict": vQNames[v]})
+			}
+		}
+	}
+	done := strings.Contains(text, "VQ done")
+	if err != nil || !done {
+		// keep the part of the crash report that names the panic
+		msg := text
+		if i := strings.Index(text, "panic:"); i >= 0 {
+			msg = text[i:]
+		}
+		if len(msg) > 900 {
+			msg = msg[:900]
+		}
+		out.Fail("C04:quic:panic", "the process running overlapping Match calls on one provisioned matcher crashed or did not finish ("+lastRound+"): "+msg,
+			map[string]any{"scenario": lastRound, "exit": fmt.Sprint(err), "verdicts_before_crash": verdicts})
+	}
+	out.Stat("quic_overlap_verdicts", verdicts)
+	out.Stat("quic_overlap_not_matched", bad)
+	out.Stat("quic_overlap_ms", time.Since(t0).Milliseconds())
 }
